@@ -444,6 +444,19 @@ def rule_cost_marks(ctx, rep, config="c-lib"):
     else:
         rep.violation("R13-costmark", "find_minimal_translation/mark-restore-paired", "the pass that turns the visit marks back into costs does not run on every path after the "
                       "costing pass: abstract nodes keep negative cost fields", where=(tr[0].where() if tr else g.where()))
+    # the restoring / reserving walk starts from what the pruning returned, and that is what the function returns
+    if len(pr) == 1 and len(tr) == 1:
+        pruned = pr[0].id
+        arg_ok = strip_casts(g, tr[0].args[0]).get("v") == pruned
+        rets = [r_ for r_ in g.all_insts() if r_.op == "ret" and r_.ops]
+        ret_ok = bool(rets) and all(strip_casts(g, r_.ops[0]).get("v") == pruned for r_ in rets)
+        if arg_ok and ret_ok:
+            rep.ok("R13-costmark", "find_minimal_translation/walk-from-pruned-root", sample={"pruned_at": pr[0].where(), "walk": tr[0].where()})
+        else:
+            rep.violation("R13-costmark", "find_minimal_translation/walk-from-pruned-root", "the walk that restores the costs and reserves what must not be released starts from "
+                          "%s, the function returns %s: when the root place holds alternatives the pruning returns another node than it was given -- nodes of the returned "
+                          "tree are released, the abandoned ones stay" % ("the pruned root" if arg_ok else "the root as it was before pruning", "the pruned root" if ret_ok else "something else"),
+                          where=tr[0].where(), witness=[pr[0].where(), tr[0].where()])
     mp = p.fn("make_parse")
     fm = [i for i in mp.calls() if i.callee == "find_minimal_translation"]
     # the costing pass is the only code that adds the children's costs into an abstract node: with the cost flag set no path
